@@ -113,7 +113,7 @@ def run_check(pid, P, tier, seed, replay, wd, t0):
         bad = core.grep_forbidden()
         if bad:
             proof_problems.append({"kind": "forbidden-construct", "hits": bad})
-        ax = core.audit_axioms()
+        ax = core.audit_axioms(pid)
         pref = f"CF.{pid}."
         obligations = {k: v for k, v in ax.items() if k.startswith(pref)}
         for k, v in obligations.items():
@@ -190,7 +190,7 @@ def run_check(pid, P, tier, seed, replay, wd, t0):
         "property_id": pid, "tier": tier, "seed": seed, "level": P.get("level", "proof"),
         "coverage": {
             "obligations": n_ob, "discharged": n_dis if ok_proof else 0,
-            "checker_cmd": f"cd lean && lake build {' '.join(targets)} && lake env lean ChipFiring/Audit.lean" + (" && lake env leanchecker " + " ".join(P.get('leanchecker_modules', targets)) if tier == "thorough" else ""),
+            "checker_cmd": f"cd lean && lake build {' '.join(targets)} && lake env lean <file importing ChipFiring.AuditCmd and ChipFiring.Properties.{pid} with #audit_properties>" + (" && lake env leanchecker " + " ".join(P.get('leanchecker_modules', targets)) if tier == "thorough" else ""),
             "trusted_base": P.get("trusted_base", props.TRUSTED_BASE),
             "theorems": {k: v for k, v in sorted(obligations.items())},
             "evaluations": sum(len(r["py"]) for r in recs),
